@@ -174,7 +174,7 @@ class Gen:
                 e = mm.E[n]
                 if mm.is_open_enum(n) and r.random() < self.custom_enum_p:
                     if e["type"]["name"] == "string":
-                        return ("enum", n, r.choice(["custom/value", "", "héllo", "x" * 40]))
+                        return ("enum", n, r.choice(["custom/value", "", "héllo", "x" * 40, "MiXed/Case-7", str(e["values"][0]["value"]).upper() + "!"]))
                     declared = {v["value"] for v in e["values"]}
                     lo = 0 if e["type"]["name"] == "uinteger" else INT_MIN
                     c = r.choice([lo, INT_MAX, 4242, 0, 99])
